@@ -814,16 +814,17 @@ fn main() {
         run.bounds.insert("many_lines_phase".into(), json!(format!("n in {lens:?}: n lines of the pattern [ab ab, ba, ab b, (empty)] and one line with one word of min(n, 257) symbols (ab repeated) plus the word ab x requested merges {{1, 3, 60}} x num_threads {{1, 2, 3, 16, 17, 255}}")));
         let base = corpora.len() + sus.len() + file_lists.len() + norm_lines.len();
         for (k, n) in lens.iter().enumerate() {
-            if !run.unit((base + k) as u64) {
-                continue;
-            }
             let pat = ["ab ab", "ba", "ab b", ""];
             let many: Vec<String> = (0..*n).map(|i| pat[i % pat.len()].to_string()).collect();
             // (the recount-everything reference is quadratic in the word length per merge: the long
             // word stops at 2^8 symbols in both tiers)
             let long_word = vec![format!("{} ab", tu_verif::enumerate::repeat_symbols(&["a", "b"], (*n).min(257)))];
-            for lines in [many, long_word] {
-                for (_, vocab_size, num_special_tokens) in [MERGES[1], MERGES[3], MERGES[5]] {
+            for (li, lines) in [many, long_word].into_iter().enumerate() {
+                for (mi, (_, vocab_size, num_special_tokens)) in [MERGES[1], MERGES[3], MERGES[5]].into_iter().enumerate() {
+                    // (a unit per count, corpus and merge budget: they are heavy)
+                    if !run.unit((base + 6 * k + 3 * li + mi) as u64) {
+                        continue;
+                    }
                     // (thread counts around a power of two and the largest the parameter type holds)
                     for num_threads in [1u8, 2, 3, 16, 17, 255] {
                         check_case(&mut run, &mut ctx, &Case::plain(lines.clone(), vocab_size, num_special_tokens, false, num_threads));
